@@ -866,6 +866,12 @@ class Overlay(Widget, WidgetContainerMixin, WidgetContainerListContentsMixin, ty
             return (maxcol - left - right,)
         return (maxcol - left - right, maxrow - top - bottom)
 
+    def _bottom_only_canvas(self, bottom_c) -> CompositeCanvas:
+        """Canvas showing bottom_w alone: top_w took part in the layout, so the canvas still depends on it."""
+        out = CompositeCanvas(bottom_c)
+        out.set_depends([self.bottom_w, self.top_w])
+        return out
+
     def render(self, size: tuple[()] | tuple[int] | tuple[int, int], focus: bool = False) -> CompositeCanvas:
         """Render top_w overlayed on bottom_w."""
         real_size = self.pack(size, focus)
@@ -873,16 +879,16 @@ class Overlay(Widget, WidgetContainerMixin, WidgetContainerListContentsMixin, ty
         left, right, top, bottom = self.calculate_padding_filler(real_size, focus)
         bottom_c = self.bottom_w.render(real_size)
         if not bottom_c.cols() or not bottom_c.rows():
-            return CompositeCanvas(bottom_c)
+            return self._bottom_only_canvas(bottom_c)
 
         top_size = self.top_w_size(real_size, left, right, top, bottom)
         if any(dimension <= 0 for dimension in top_size):
             # a relative width / height rounded down to nothing: there is no room for top_w
-            return CompositeCanvas(bottom_c)
+            return self._bottom_only_canvas(bottom_c)
 
         top_c = self.top_w.render(top_size, focus)
         if not top_c.cols() or not top_c.rows():
-            return CompositeCanvas(bottom_c)
+            return self._bottom_only_canvas(bottom_c)
 
         top_c = CompositeCanvas(top_c)
         if left < 0 or right < 0:
